@@ -405,10 +405,21 @@ class LuaHarness(object):
         if kind == "exc" and not isinstance(value, PathAbort):
             return {"cls": cls, "violation": self.witness(e.model(), "unexpected %s: %s" % (type(value).__name__, str(value)[:160])),
                     "vkey": "%s:exc" % self.lname}
-        if undecided or len(matches) > 1:
+        if undecided:
             return {"cls": cls + "/outside-domain", "sample": self.witness(e.model(), None)}
         errored = kind == "exc"
         libcalls = [c for c in self.calls if c[0] == "call"]
+        if len(matches) > 1:
+            # several signatures match the number and Lua types: the property does not say which of them is selected, but the
+            # one that is called must be one of them and is then judged like an unambiguous call
+            pick = [m_ for m_ in matches if len(libcalls) == 1 and libcalls[0][3][0] is m_[0]]
+            if pick:
+                matches = pick[:1]
+            elif not errored and len(libcalls) == 1:
+                return {"cls": cls, "violation": self.witness(e.model(), "the binding calls %s, which is none of the %d signatures the stack matches" % (
+                    libcalls[0][1], len(matches))), "vkey": "%s:ambiguous-none" % self.lname}
+            else:
+                matches = matches[:1]
         if not matches:
             kfkey = None
             if not errored:
@@ -438,8 +449,6 @@ class LuaHarness(object):
             _, dem, vals, (best, this, rinfo, nparams) = libcalls[0]
             if best is None or best is not sig:
                 fail = "the binding calls %s, the stack selects %s with %d arguments" % (dem, sig.name, ar)
-            elif sig.is_ctor:
-                pass
             else:
                 if method:
                     box, inst, ok = st.udata_obj(1)
@@ -477,7 +486,7 @@ class LuaHarness(object):
                             fail = "argument '%s' is not the string held in stack slot %d" % (p.name, slot)
                             self._m = e.model(bad)
                 # result
-                if not fail:
+                if not fail and not sig.is_ctor:
                     pushed = [x for x in st.pushed if x[0] != "metatable"]
                     want_n = 0 if sig.result is None else 1
                     if len(pushed) != want_n:
